@@ -2,15 +2,22 @@ CFG = {'allowed_axioms': [],
  'assumptions': ['one caller at a time',
                  'messages restricted to three scalar fields of TestAllTypes and top-level field masks in the correspondence (theorems are over an '
                  'abstract algebra)'],
- 'coq_modules': ['Resource.Judge', 'Resource.C08Judge', 'Resource.IncludeProofs', 'Resource.IncludeTableProofs', 'Resource.IncludeDenoteProofs'],
- 'generators': ['C08', 'C08x'],
+ 'coq_modules': ['Resource.Judge',
+                 'Resource.C08Judge',
+                 'Resource.IncludeProofs',
+                 'Resource.IncludeTableProofs',
+                 'Resource.IncludeDenoteProofs',
+                 'Resource.HeldJudge',
+                 'Resource.Held04Proofs'],
+ 'generators': ['C08', 'C08x', 'C08H'],
  'harness_pkg': 'cres',
  'judge_module': 'Resource.Judge',
  'level_note': 'Trusted: as C04 and C09 (Go channel/select semantics: the lossy scenario relies on the merge stage keeping FIFO order by id so that '
                'a plug write on its own id is what the Pull goroutine holds while the reader stalls). Predicates are drawn from a family (true, '
                'id-in-set, field>=k, negation, true-on-absent) for execution; the theorems cover all functions. The message-level end-to-end '
-               'theorems take the token reading of a history (tokens = stored message pointers) as a hypothesis. Equivalence together with include '
-               'is not modelled.',
+               'theorems take the token reading of a history (tokens = stored message pointers) as a hypothesis. Equivalence together with include: '
+               'modelled by the held map (Resource/Pull.v pull_collection_held), theorems C08_held_*; the lossy C08H scenarios are judged by the '
+               'oracle only.',
  'level_text': 'Theorems (Props/C08.v, closed, arbitrary message algebra, ANY predicate as a function, any read mask): the include decision table '
                '(start => ADD, stop => REMOVE, stays in => delivered, stays out => dropped, absent values never match) for EVERY change kind incl. '
                'the REPLACE the lossy merge stage produces; the step law (what include returns is a legal edit of the FILTERED collection leading to '
@@ -26,7 +33,14 @@ CFG = {'allowed_axioms': [],
                'table rows as cases, public-API lossy+include scenarios with 1-2 stalled-then-draining subscribers and scripted delete/re-add of '
                'matching<->non-matching versions (every field of every event vs m_run+include, fold vs List), two backpressured subscribers, write '
                "during seed, and the booking server's booking_intersects predicate vs PeriodsIntersect's model and its arithmetic reference over the "
-               'full grid of period shapes (List and Pull).',
+               'full grid of period shapes (List and Pull). Include together with an EQUIVALENCE on the collection (held map of Collection.Pull '
+               'since /repo 3a50d70): for every history - items leaving and re-entering the filter, deletes, re-adds - any predicate, mask and '
+               'reflexive comparer, the fold of the stream is equivalent to List with the same options id by id; an item is in the fold iff it is in '
+               'the filtered List when the comparer tells a value from nothing; fold = List for a comparer deciding equality; the invariant holds '
+               'along any chain of described events. Tied to the code by generator C08H (~260 scenarios per run: include x equivalence x mask x '
+               'backpressure / lossy, scripted leave / re-enter equivalent / re-enter different / delete / re-add steps; with backpressure the fold '
+               'is compared with List(include) after EVERY write up to the equivalence, every event field with the held-map model) and by an '
+               "equivalence drawn for a third of C08's random histories.",
  'theorems': ['C08_decision_table',
               'C08_filtered_fold_is_filtered_list',
               'C08_seed_is_filtered_list',
@@ -46,7 +60,16 @@ CFG = {'allowed_axioms': [],
               'C08_table_input_untouched',
               'C08_include_is_pull_include',
               'C08_backpressure_fold_is_list_M',
-              'C08_lossy_fold_is_list_M'],
+              'C08_lossy_fold_is_list_M',
+              'C08_held_fold_equivalent_to_filtered_list',
+              'C08_held_fold_same_presence',
+              'C08_held_fold_is_list_for_equality',
+              'C08_held_fold_any_described_chain',
+              'C08_held_without_equivalence',
+              'C08_nonvacuous',
+              'C08_nonvacuous_lossy_replace',
+              'C08_nonvacuous_rep',
+              'C08_nonvacuous_leave_and_return_equal'],
  'trusted_base': ['modelled, not verified: pkg/masks on flat messages (Resource/Flat.v), proto.Equal/Clone/Merge on three scalar fields, '
                   'sync.RWMutex (sequential use), minibus with one backpressured listener',
                   'translator harness/cres/include.go: runs resource.VerifInclude (build tag verif) on kinds 0..5 x old/new nil-ness x predicate '
